@@ -2848,8 +2848,8 @@ impl Scenario for Sc {
     }
     fn budget(&self, tier: Tier) -> u64 {
         match tier {
-            Tier::Quick => self.quick,
-            Tier::Thorough => self.quick * 40,
+            Tier::Quick => self.quick * 12,
+            Tier::Thorough => self.quick * 400,
         }
     }
     fn run(&self, cx: &mut Run) {
@@ -2880,8 +2880,8 @@ impl Scenario for Values {
     }
     fn budget(&self, tier: Tier) -> u64 {
         match tier {
-            Tier::Quick => self.quick,
-            Tier::Thorough => self.quick * 40,
+            Tier::Quick => self.quick * 12,
+            Tier::Thorough => self.quick * 400,
         }
     }
     fn run(&self, cx: &mut Run) {
